@@ -272,7 +272,7 @@ def argumentFn (s : PState) (k : TokKind) (text : Bytes) : FnResult :=
   | .left_bracket =>
     .ret true { s with brackets := .right_bracket :: s.brackets, cstate := .stringlist,
                        curlist := [], expected := some [.string] } false
-  | .left_cbracket | .comma =>
+  | .left_cbracket | .comma | .right_parenthesis =>
     match s.stack with
     | [] => .crash "AttributeError: NoneType"
     | f :: _ =>
@@ -317,6 +317,11 @@ def argumentsFn (T : Table) (s : PState) (k : TokKind) (text : Bytes) : FnResult
         | .ret true s' rew => complThen s' false rew
         | r => r
     | .right_parenthesis =>
+      if f.d.nonDet then
+        match argumentFn s k text with
+        | .ret true s' rew => complThen s' false rew
+        | r => r
+      else
       match popBracket s k with
       | none => .err .closingBracket false
       | some s1 =>
